@@ -26,11 +26,11 @@ theorem cancelAll_post (c : Conn) : ∀ (ts : List Tid) (s : Srv),
     (∀ t t' m c1 c2, get? s.tasks t = some (m, c1) → get? s.tasks t' = some (m, c2) → t = t') →
     ∃ s2, cancelAll ts s = .ok s2 ∧ s2.clients = s.clients ∧ s2.tasks = s.tasks ∧ s2.m2t = s.m2t ∧
       s2.counter = s.counter ∧ s2.running = s.running ∧ s2.closed = s.closed ∧
-      clientReplies s2.out = clientReplies s.out ∧
+      (∃ downs, s2.out = s.out ++ downs ∧ ∀ o ∈ downs, ∃ m, o = Out.downCancel m) ∧
       ∀ m, get? s2.boxes m = if ts.any (fun t => mbOf s t == some m) then none else get? s.boxes m := by
   intro ts
   induction ts with
-  | nil => intro s _ _ _ _ _; exact ⟨s, rfl, rfl, rfl, rfl, rfl, rfl, rfl, rfl, by simp⟩
+  | nil => intro s _ _ _ _ _; exact ⟨s, rfl, rfl, rfl, rfl, rfl, rfl, rfl, ⟨[], by simp, by simp⟩, by simp⟩
   | cons t r ih =>
     intro s hc hcl hnd hall hinj
     obtain ⟨m, b, h1, h2⟩ := hall t (List.mem_cons_self)
@@ -47,7 +47,12 @@ theorem cancelAll_post (c : Conn) : ∀ (ts : List Tid) (s : Srv),
     obtain ⟨s2, e0, e1, e2, e3, e4, e5, e6, e7, e8⟩ := ih s1 hc hcl hnd'.2 hall' hinj
     refine ⟨s2, ?_, e1, e2, e3, e4, e5, e6, ?_, ?_⟩
     · simp only [cancelAll, cancelCore_closed hc hcl h1 h2]; exact e0
-    · rw [e7]; simp [s1, Srv.emit, clientReplies, Out.reply?]
+    · obtain ⟨downs, d1, d2⟩ := e7
+      refine ⟨Out.downCancel m :: downs, by rw [d1]; simp [s1, Srv.emit], ?_⟩
+      intro o ho
+      rcases List.mem_cons.mp ho with x | x
+      · exact ⟨m, x⟩
+      · exact d2 o x
     · intro m'
       rw [e8 m']
       have hmb : mbOf s t = some m := by simp [mbOf, h1]
@@ -125,6 +130,7 @@ structure DiscPost (s : Srv) (c : Conn) (s' : Srv) : Prop where
   running : s'.running = s.running
   closed : s'.closed = c :: s.closed
   replies : clientReplies s'.out = clientReplies s.out ++ [.close c]
+  outShape : ∃ downs, s'.out = s.out ++ Out.close c :: downs ∧ ∀ o ∈ downs, ∃ m, o = Out.downCancel m
   nodup : KeysNodup s'.tasks
 
 theorem handleDisconnect_post {s : Srv} (h : Inv s) {c ts} (hc : get? s.clients c = some ts) :
@@ -260,7 +266,16 @@ theorem handleDisconnect_post {s : Srv} (h : Inv s) {c ts} (hc : get? s.clients 
     · rw [b3, a4]; rfl
     · rw [b4, a5]; rfl
     · rw [b5, a6]; rfl
-    · rw [b6, a7]; simp [s1, Srv.emit, clientReplies, Out.reply?]
+    · obtain ⟨downs, d1, d2⟩ := a7
+      rw [b6, d1]
+      have : clientReplies downs = [] := by
+        unfold clientReplies
+        apply List.filterMap_eq_nil_iff.mpr
+        intro o ho; obtain ⟨m, rfl⟩ := d2 o ho; rfl
+      rw [clientReplies_append, this]
+      simp [s1, Srv.emit, clientReplies, Out.reply?]
+    · obtain ⟨downs, d1, d2⟩ := a7
+      exact ⟨downs, by rw [b6, d1]; simp [s1, Srv.emit], d2⟩
     · exact b9 (by rw [tk2]; exact h.tkNodup)
 
 theorem Inv.mbOwner_eq {s : Srv} (h : Inv s) {t m c} (ht : get? s.tasks t = some (m, c)) :
